@@ -374,35 +374,8 @@ Section Front.
     | f :: up => set_spine c (add_text_kid f text :: up)
     end.
 
-  Definition on_start_element (c : ctx) (name : bytes) (attrs : list (bytes * bytes)) (byte_index : N) : ctx :=
-    if negb (c_error c =? WBXML_OK) then c
-    else if 0 <? c_skip_lvl c then set_skip c (u32 (c_skip_lvl c + 1)) (c_skip_start c)
-    else
-      (* the root element decides the language when the DOCTYPE did not *)
-      let c1 := match c_spine c, c_lang c with
-                | [], None =>
-                  match search_table main None None (Some (str name)) with
-                  | None => set_error c E_UNKNOWN_XML_LANGUAGE
-                  | Some l => set_lang c (Some l)
-                  end
-                | _, _ => c
-                end in
-      if negb (c_error c1 =? WBXML_OK) then c1
-      else if is_embedded_name name && negb (match c_spine c1 with [] => true | _ => false end)
-      then set_skip c1 (u32 (c_skip_lvl c1 + 1)) byte_index
-      else if WBXML_MAX_NESTING_DEPTH <=? N.of_nat (List.length (c_spine c1))     (* parents of `current`, counted *)
-      then set_error c1 E_NESTING_TOO_DEEP
-      else
-        match c_lang c1 with
-        | None => set_error c1 E_UB_NULL                       (* tree->lang->nsTable with tree->lang == NULL *)
-        | Some l =>
-          let '(tag, page) := resolve_tag l name in
-          let c2 := set_page c1 page in
-          (* attrs != NULL && *attrs != NULL: the attribute list exists only when there is an attribute *)
-          push_frame c2 (mk_frame (FElt tag (map (resolve_attr l) attrs) None) []) E_NOT_ENOUGH_MEMORY
-        end.
-
-  (* the first part of wbxml_tree_clb_xml_end_element: runs BEFORE the error and skip checks *)
+  (* flush_binary_content: the first part of wbxml_tree_clb_xml_end_element (runs BEFORE the error and skip checks), and,
+     since /repo c0648d3, also run by wbxml_tree_clb_xml_start_element before the child element is added *)
   Definition flush_binary (c : ctx) : ctx :=
     match c_spine c with
     | f :: up =>
@@ -419,6 +392,41 @@ Section Front.
       end
     | [] => c
     end.
+
+  (* the tail of the start-element callback: depth check, then the element node is added below `current` *)
+  Definition start_child (c1 : ctx) (name : bytes) (attrs : list (bytes * bytes)) : ctx :=
+    if negb (c_error c1 =? WBXML_OK) then c1
+    else if WBXML_MAX_NESTING_DEPTH <=? N.of_nat (List.length (c_spine c1))     (* parents of `current`, counted *)
+    then set_error c1 E_NESTING_TOO_DEEP
+    else
+      match c_lang c1 with
+      | None => set_error c1 E_UB_NULL                       (* tree->lang->nsTable with tree->lang == NULL *)
+      | Some l =>
+        let '(tag, page) := resolve_tag l name in
+        let c2 := set_page c1 page in
+        (* attrs != NULL && *attrs != NULL: the attribute list exists only when there is an attribute *)
+        push_frame c2 (mk_frame (FElt tag (map (resolve_attr l) attrs) None) []) E_NOT_ENOUGH_MEMORY
+      end.
+
+  Definition on_start_element (c : ctx) (name : bytes) (attrs : list (bytes * bytes)) (byte_index : N) : ctx :=
+    if negb (c_error c =? WBXML_OK) then c
+    else if 0 <? c_skip_lvl c then set_skip c (u32 (c_skip_lvl c + 1)) (c_skip_start c)
+    else
+      (* the root element decides the language when the DOCTYPE did not *)
+      let c1 := match c_spine c, c_lang c with
+                | [], None =>
+                  match search_table main None None (Some (str name)) with
+                  | None => set_error c E_UNKNOWN_XML_LANGUAGE
+                  | Some l => set_lang c (Some l)
+                  end
+                | _, _ => c
+                end in
+      if negb (c_error c1 =? WBXML_OK) then c1
+      else if is_embedded_name name && negb (match c_spine c1 with [] => true | _ => false end)
+      then set_skip c1 (u32 (c_skip_lvl c1 + 1)) byte_index
+      else
+        (* base64 text of a binary-flagged parent read so far comes before this child (since /repo c0648d3) *)
+        start_child (flush_binary c1) name attrs.
 
   (* "<!DOCTYPE root PUBLIC "pubid" "dtd">\n" ++ input[skip_start, index) ++ "</DevInf>" *)
   Definition embedded_doc (l : lang) (start index : N) (closing : bytes) : option bytes :=
